@@ -100,6 +100,18 @@ def reintroduces(impl, inp, cls, p):
     return not any(n.is_leaf() and n.data == name and not impl.smtlib.is_definition_node(n) for n in impl.nodes.dfs(inp))
 
 
+FAMILY_FP = 'cycle:Constants-restores-fp-literal'
+
+
+def restores_fp(impl, cls, p):
+    """the step p is Constants replacing a whole (fp ...) literal (one whose field another step has changed) by a default
+    constant: the call site of the known family of cycles through NaN and the infinities"""
+    if cls != 'Constants' or not isinstance(p, dict) or 'node' not in p:
+        return False
+    n = p['node']
+    return (not n.is_leaf()) and len(n) > 0 and n[0].is_leaf() and n[0].data == 'fp'
+
+
 def search_cycles(impl, P, exprs, depth, budget, rng, third=0.15):
     """Bounded search (a search, not a proof) for no-ops and short cycles from exprs. Returns list of findings."""
     findings = []
@@ -143,7 +155,8 @@ def search_cycles(impl, P, exprs, depth, budget, rng, third=0.15):
             k2 = key_of(impl, r2)
             if k2 == k0:
                 findings.append(dict(kind='2-cycle', chain=[cls1, cls2], via=impl.render(r1, 'default')[:600],
-                                     reintro=reintroduces(impl, exprs, cls1, p1) or reintroduces(impl, r1, cls2, p2)))
+                                     reintro=reintroduces(impl, exprs, cls1, p1) or reintroduces(impl, r1, cls2, p2),
+                                     fp=restores_fp(impl, cls1, p1) or restores_fp(impl, cls2, p2)))
             elif depth >= 3 and k2 != k1 and time.time() - t0 < 20 and rng.random() < third:
                 try:
                     r2 = impl.nodes.reduplicate(r2)
@@ -151,7 +164,8 @@ def search_cycles(impl, P, exprs, depth, budget, rng, third=0.15):
                         stats['explored'] += 1
                         if r3 != 'HANG' and key_of(impl, r3) == k0:
                             findings.append(dict(kind='3-cycle', chain=[cls1, cls2, cls3], via=impl.render(r1, 'default')[:400],
-                                                 reintro=reintroduces(impl, exprs, cls1, p1) or reintroduces(impl, r1, cls2, p2) or reintroduces(impl, r2, cls3, p3)))
+                                                 reintro=reintroduces(impl, exprs, cls1, p1) or reintroduces(impl, r1, cls2, p2) or reintroduces(impl, r2, cls3, p3),
+                                                 fp=restores_fp(impl, cls1, p1) or restores_fp(impl, cls2, p2) or restores_fp(impl, cls3, p3)))
                 except Exception:  # noqa
                     pass
     return findings, stats
@@ -232,7 +246,7 @@ def run(ctx):
             ctx.violation('impl-violation', input=text, finding=f['kind'], chain=f['chain'], detail=f.get('via') or f.get('node'),
                           observed=f"{f['kind']} by {' -> '.join(f['chain'])}",
                           expected='no proposal leaves the input unchanged, no chain of proposals leads back to an input already visited, every proposal is delivered in bounded time',
-                          finding_key=(FAMILY_RBV if f.get('reintro') and ELIMINATORS & set(f['chain']) else 'cycle:' + '+'.join(sorted(set(f['chain'])))) if 'cycle' in f['kind'] else None,
+                          finding_key=(FAMILY_RBV if f.get('reintro') and ELIMINATORS & set(f['chain']) else FAMILY_FP if f.get('fp') else 'cycle:' + '+'.join(sorted(set(f['chain'])))) if 'cycle' in f['kind'] else None,
                           how_to_replay='./check C03 --replay <file>')
     # delivery time: terms nested in one operand position, with an innermost operand whose sort is or is not inferable;
     # every filter/mutations call must return within a bound that does not depend exponentially on the depth
@@ -376,6 +390,9 @@ def run(ctx):
             if keys[0] not in known_cycles and 'ReplaceByVariable' in classes_ and ELIMINATORS & set(classes_) and FAMILY_RBV in known_cycles:
                 # the family of cycles in which ReplaceByVariable brings an eliminated variable back (any steps in between)
                 keys = [FAMILY_RBV]
+            if keys[0] not in known_cycles and 'Constants' in classes_ and FAMILY_FP in known_cycles and ('FloatingPoint' in j['text'] or 'Float' in j['text']):
+                # Constants restores a NaN/infinity literal one of whose fields an earlier step has changed (any steps in between)
+                keys = [FAMILY_FP]
             if keys[0] not in known_cycles:
                 # a closed walk may interleave several independent known cycles (at different positions of the input): it is
                 # explained by them if their mutator sets together are exactly the mutators of the walk
